@@ -17,8 +17,12 @@ for d in sorted(glob.glob('/verif/seeded/*')):
             if rc == '1': caught.append(f"{cid} {tier}: " + ", ".join(rl))
             elif rc == '0': missed.append(f"{cid} {tier}")
             else: missed.append(f"{cid} {tier} (rc={rc})")
-    s = m.get('summary', '')
+    s = m.get('summary', '') or m.get('what', '')
     s = s.split('. ')[0][:170]
+    if n.startswith('equiv-'):
+        nsilent = len(missed)
+        rows.append(f"| {n} | (probe) | {s} | {'; '.join(caught) or '-'} | {nsilent} of 20 checks silent" + ('' if not caught else '; see meta.json assessment') + " |")
+        continue
     rows.append(f"| {n} | {m.get('property')} | {s} | {'; '.join(caught) or '-'} | {'; '.join(missed) or '-'} |")
 print("| seeded change | property | what it does (first sentence of meta.json) | caught by (rules that fired) | silent (as expected or accepted) |")
 print("|---|---|---|---|---|")
